@@ -276,14 +276,14 @@ def q_sqrt(x):
     return Fraction(math.isqrt(n * d << 80), d << 40)
 
 
-def gen_mats(rng, maps):
+def gen_mats(rng, maps, diag=False):
     mats = []
     for m in maps:
         n = len(m)
         rows = []
         for i in range(n):
             cols = sorted(rng.sample(range(n), min(n, rng.randint(1 if i == 0 else 0, 3))))
-            if rng.random() < 0.5 and i not in cols:
+            if (diag or rng.random() < 0.5) and i not in cols:
                 cols = sorted(cols + [i])
             rows.append(" ".join([str(len(cols))] + ["%d %s" % (c, vlib.frac_str(rand_rat(rng, small=True))) for c in cols]))
         mats.append(" ".join([str(n)] + rows))
@@ -418,13 +418,43 @@ def serial_cg(A, G, B, X, k):
     return X, rr
 
 
+def serial_pcg(A, G, B, X, k):
+    def mv(V):
+        R = [Fraction(0)] * G
+        for (gi, gj), a in A.items():
+            R[gi] += a * V[gj]
+        return R
+    diag = [A.get((g, g), Fraction(0)) for g in range(G)]
+    if any(t == 0 for t in diag):
+        return None
+    X = list(X)
+    AX = mv(X)
+    R = [B[g] - AX[g] for g in range(G)]
+    Z = [R[g] / diag[g] for g in range(G)]
+    Pv = list(Z)
+    rz = sum(a * b for a, b in zip(R, Z))
+    for _ in range(k):
+        Qv = mv(Pv)
+        pq = sum(a * b for a, b in zip(Pv, Qv))
+        if pq == 0 or rz == 0:
+            return None
+        al = rz / pq
+        X = [x + al * p for x, p in zip(X, Pv)]
+        R = [r - al * q for r, q in zip(R, Qv)]
+        Z = [R[g] / diag[g] for g in range(G)]
+        rz2 = sum(a * b for a, b in zip(R, Z))
+        Pv = [z + (rz2 / rz) * p for z, p in zip(Z, Pv)]
+        rz = rz2
+    return X, rz
+
+
 def gen_solve_case(rng):
     """distributed (Jacobi-)Richardson / CG iterations; every global DOF is covered by construction of gen_decomp"""
     for _ in range(50):
         G, maps, nbrs = gen_decomp(rng, P=rng.choice([1, 2, 3, 3, 4, 5]))
         if not all(len(m) > 0 for m in maps) or G > 14:
             continue
-        mats = gen_mats(rng, maps)
+        mats = gen_mats(rng, maps, diag=True)
         A = assemble_global(maps, mats)
         B = [rand_rat(rng, small=True) for _ in range(G)]
         X = [rand_rat(rng, small=True) for _ in range(G)]
@@ -438,6 +468,10 @@ def gen_solve_case(rng):
                 continue
             return "rich %d %d %s %s %s %s %s %s" % (jac, k, vlib.frac_str(omega), D, ords, " ".join(mats), bs, xs)
         k = rng.choice([0, 1, 2])
+        if rng.random() < 0.5:
+            if serial_pcg(A, G, B, X, k + 1) is None:
+                continue
+            return "pcg %d %s %s %s %s %s" % (k, D, ords, " ".join(mats), bs, xs)
         if serial_cg(A, G, B, X, k + 1) is None:      # no zero denominators, also not in the next step
             continue
         return "cg %d %s %s %s %s %s" % (k, D, ords, " ".join(mats), bs, xs)
@@ -744,6 +778,8 @@ CORPUS = [
     "rich 0 3 1/1 3 4 2 0 1 2 0 2 2 1 0 1 1 3 3 1 1 2 2 0 1 1 1 0 2 0 1 0 2 1 0 3 3 1 0 0 2 1 0 1 1 1 2 0 1 0 2 1 0 3 2 1 0 2 1 0 3 2 1 0 2 0 1 2 1 0 0/1 2 0 3/1 1 9/1 2 1 1 0/1 1 1 1/1 2 2 0 -2/1 1 7/1 1 1 -2/1 1 1 0 -7/1 2 2/1 1/1 2 2/1 4/1 2 1/1 2/1 1 1/1 2 -2/1 -5/1 2 -2/1 -4/1 2 -5/1 -2/1 1 -5/1",
     "rich 1 3 -3/4 2 3 2 0 1 1 1 2 0 1 2 2 2 0 1 1 1 1 2 0 1 0 2 1 0 2 1 1 1 0 2 0 1 2 0 1 2 1 0 2 1 0 2 1 1 -6/1 2 0 0/1 1 -1/1 1 1 0 -8/1 2 2 0 -5/1 1 0/1 2 0 1/1 1 -1/1 2 0/1 2/1 1 2/1 2 0/1 2/1 2 -7/1 -4/1 1 -4/1 2 -7/1 -4/1",
     "cg 2 5 3 1 0 3 4 3 0 3 0 1 2 2 2 1 0 1 1 0 2 2 1 2 0 1 2 2 0 1 0 1 1 0 2 1 0 2 1 0 2 1 0 1 1 0 0/1 3 3 0 -3/1 1 2/1 2 1/1 0 2 0 1/1 2 1/1 3 1 0 5/1 0 0 1 8/1 3 4/1 -1/1 8/1 3 8/1 -9/1 1/1 1 5/1 3 1/1 6/1 5/1 3 5/1 -6/1 -5/1",
+    # Jacobi-preconditioned CG: iterates equal the one-process iterates
+    "pcg 2 4 3 2 1 3 2 0 1 3 3 2 1 2 2 2 1 0 1 1 0 2 0 1 1 2 1 1 2 1 1 2 0 2 0 2 2 1 0 2 0 1 2 0 1 2 2 0 5/1 1 3/1 2 0 -4/1 1 5/1 2 2 0 -4/1 1 1/1 2 0 1/1 1 0/1 3 1 0 1/1 2 0 9/1 1 9/1 1 2 5/1 2 3/1 0/1 2 9/1 3/1 3 0/1 0/1 3/1 2 0/1 -8/1 2 -8/1 0/1 3 -8/1 -1/1 0/1",
 ]
 
 
@@ -1204,14 +1240,14 @@ def solve_oracle(op, c, out):
         res = read_vecs_out(out, "V", sizes)
         rr = None
     else:
-        ref = serial_cg(A, G, B, X, k)
+        ref = serial_cg(A, G, B, X, k) if op == "cg" else serial_pcg(A, G, B, X, k)
         if ref is None:
             return None
         ref, rr = ref
         t = out.split()
         res = read_vecs_out(" ".join(t[:-2]), "V", sizes)
         if t[-2] != "R" or vlib.parse_frac(t[-1]) != rr:
-            return "cg: residual norm^2 after %d steps = %s, the one-process iteration gives %s" % (k, t[-1], rr)
+            return "%s: r.z after %d steps = %s, the one-process iteration gives %s" % (op, k, t[-1], rr)
     for r in range(P):
         for i, g in enumerate(maps[r]):
             if res[r][i] != ref[g]:
@@ -1223,7 +1259,7 @@ def oracle(case, out):
     c = Tk(case)
     op = c.tok()
     try:
-        if op in ("rich", "cg"):
+        if op in ("rich", "cg", "pcg"):
             return solve_oracle(op, c, out)
         if op == "ticket":
             kind, v = c.nat(), c.rats()
@@ -1353,9 +1389,9 @@ def _shape(case):
         return op, 1, None, c.nat(), None
     if op == "rich":
         c.nat(), c.nat(), c.tok()
-    if op == "cg":
+    if op in ("cg", "pcg"):
         c.nat()
-    bs = 1 if op in ("gapply", "gapply2", "gdiag", "gfilter", "spljoin", "splsplit", "rich", "cg") else c.nat()
+    bs = 1 if op in ("gapply", "gapply2", "gdiag", "gfilter", "spljoin", "splsplit", "rich", "cg", "pcg") else c.nat()
     if op == "vops":
         c.nat(), c.tok(), c.tok()
     if op == "valias":
@@ -1634,11 +1670,12 @@ def make_mpi_oracle(results):
                 if not abs(fa - fb) <= TOL[k] * max(abs(fa), abs(fb)):
                     return "%s: %r on %d ranks, %r on one process (rel. tolerance %g)" % (k, fa, n, fb, TOL[k])
             elif k.startswith("b_"):
-                # quantities with an a-priori floating point bound proved in Lean (C13.sync0_float_bound): error / bound <= 1
-                # (slack 1e-3 for the rounding in the evaluation of the bound itself)
+                # quantities with an a-priori floating point bound proved in Lean: error / bound <= 1 (slack 1e-3 for the rounding
+                # in the evaluation of the bound itself).  b_sync_float_ratio: C13.sync0_float_bound, ((1+u)^(k-1)-1) * sum|c| at a
+                # DOF shared by k ranks; b_dot_float_ratio: C13.gdotFl_bound, ((1+u)^(n+2+N)-1) * sum|freq x y|
                 if not float.fromhex(a) <= 1.001:
-                    return "%s = %r on %d ranks: the synchronised value of some shared DOF is further from the exact sum than " \
-                           "((1+u)^(k-1)-1) * sum|contributions|" % (k, float.fromhex(a), n)
+                    return "%s = %r on %d ranks: the floating point result is further from the exact value than the proved bound" % (
+                        k, float.fromhex(a), n)
             elif k.startswith("z_"):
                 # relative defects of identities that hold exactly in exact arithmetic (prol reproduces the interpolant of a
                 # multilinear function, rest is the adjoint of prol w.r.t. Gate::dot)
